@@ -120,6 +120,10 @@ PROOFS = [
     Proof('extract_front_continuous', 'iov.c', 'h_extract_front_continuous', kind='L', min_obligations=10, **CV),
     Proof('extract_back_continuous', 'iov.c', 'h_extract_back_continuous', kind='L', min_obligations=10, **CV),
     # slice: contract written in iov.c.in (two loops); cvc5 did not finish in 15 min -> not listed (see DESIGN §6 C14)
+    # bounded stand-ins (labelled bounded, never counted as proved) for the three contracts no back end discharges unbounded
+    Proof('bounded/slice_n2', 'iov.c', 'h_slice', kind='B', backend='cadical', defines=['NMAX=2', 'BOUNDED_LOOPS'], unwind=5, bound='at most 2 source elements and 2 output slots, any lengths / offset / count', timeout=900, checks=CHECKS),
+    Proof('bounded/extract_back_copy_n2', 'iov.c', 'h_extract_back_copy', kind='B', backend='cadical', defines=['NMAX=2', 'BOUNDED_LOOPS'], unwind=5, bound='at most 2 elements, any lengths and byte count', timeout=1800, tier='thorough', checks=CHECKS),
+    Proof('bounded/slice_n3', 'iov.c', 'h_slice', kind='B', backend='cadical', defines=['NMAX=3', 'BOUNDED_LOOPS'], unwind=6, bound='at most 3 source elements and 3 output slots, any lengths / offset / count', timeout=3000, tier='thorough', checks=CHECKS),
     Proof('lemma/pre_mono', 'iov.c', 'lemma_pre_mono', kind='L', min_obligations=3, **CV),
 ]
 NATIVES = [Native('native', 'native.cpp', args_quick=[300000], args_thorough=[20000000], timeout=1800, link_photon=True)]
